@@ -14,6 +14,7 @@ void vtrace(unsigned long v);     // value observed by a monitor (hashed in the 
 void ir_throw(void);              // a C++ exception would be thrown here
 void vstl_capacity_exceeded(void);
 void vstl_length_error(void);
+void vstl_oob(void);
 void vstl_access(const void* container);
 }
 #define vassert(c) vassert_(!!(c), __LINE__)
